@@ -3,7 +3,7 @@
    witnesses of the refutation theorems (closed computations checked by the kernel). *)
 From Coq Require Import PrimFloat ZArith List Bool Lia.
 Import ListNotations.
-Require Import PyBase Solver SolverFacts SolverF SolveAll Tracer TracerSolve TracerNames TracerLinked TracerReindex TracerFacts TracerFacts2 TracerF.
+Require Import PyBase Solver SolverFacts SolverF SolveAll Tracer TracerSolve TracerNames TracerLinked TracerReindex TracerKw TracerFacts TracerFacts2 TracerF.
 Open Scope Z_scope.
 
 (* ---------------- the scripted oracles keep the shape of the store: the premise of C17 is met by every script *)
@@ -339,3 +339,38 @@ Example tx_reindex_before_the_fix :
   /\ (let '((_, h'), e) := trace_t_cells float [0%nat] false 1%nat LStart [2.5%float] (reindex_cells_shared tx_positions tx_cells) tx_tr1 in
       e = None /\ length (tr_index (tderef float h' 1%nat)) = 8%nat /\ length (tr_index (tderef float tx_tr1 1%nat)) = 7%nat).
 Proof. split; [reflexivity|]. vm_compute. repeat split; reflexivity. Qed.
+
+(* ---------------- keyword threading (TracerKw.v): user hooks that USE what they are handed.  u_ev replays the scripted
+   passes by the iteration number it receives and refuses to run without one; u_tagged wants the user keyword 7.
+   With the real wrappers (`forward`) the traced call equals the plain one; a wrapper that forgets `iteration=iteration`,
+   or drops **kwargs, is noticed: the traced call fails where the plain one solves the period. *)
+Definition u_ev : uhook float := fun t kw v =>
+  match u_iteration kw with
+  | Some k => s_ev 3 tx_scripts t (u_errors kw) (u_cf kw) k v
+  | None => (v, Some 13)
+  end.
+Definition u_tagged : uhook float := fun t kw v =>
+  match u_extra kw with
+  | (7%nat, _) :: _ => (v, None)
+  | _ => (v, Some 12)
+  end.
+Definition u_quiet : uhook float := fun t kw v => (v, None).
+Definition tx_K (fe fb fa : kwargs -> kwargs) (x : list (nat * Z)) (before : uhook float) :=
+  traced_solve_t_K float PrimFloat.sub PrimFloat.abs PrimFloat.ltb fisfin fzero fe fb fa tx_cfg (TFlag true) false x
+                   u_ev before u_quiet tx_desc (tx_opts 0 5) 1 tx_state tx_tr0.
+Definition tx_P (x : list (nat * Z)) (before : uhook float) :=
+  plain_solve_t_K float PrimFloat.sub PrimFloat.abs PrimFloat.ltb fisfin fzero x u_ev before u_quiet tx_desc (tx_opts 0 5) 1 tx_state.
+
+Example tx_kw_forwarded :
+  snd (tx_K forward forward forward [(7%nat, 1)] u_tagged) = Ret true /\ snd (tx_P [(7%nat, 1)] u_tagged) = Ret true
+  /\ fst (fst (tx_K forward forward forward [(7%nat, 1)] u_tagged)) = fst (tx_P [(7%nat, 1)] u_tagged).
+Proof. repeat split; vm_compute; reflexivity. Qed.
+
+Lemma forgetting_iteration_is_noticed :
+  snd (tx_P [] u_quiet) = Ret true /\ snd (tx_K forward_without_iteration forward forward [] u_quiet) = Raise (SolutionError (Some 13)).
+Proof. split; vm_compute; reflexivity. Qed.
+
+Lemma forgetting_kwargs_is_noticed :
+  snd (tx_P [(7%nat, 1)] u_tagged) = Ret true
+  /\ snd (tx_K forward forward_without_kwargs forward [(7%nat, 1)] u_tagged) = Raise (SolutionError (Some 12)).
+Proof. split; vm_compute; reflexivity. Qed.
